@@ -462,6 +462,54 @@ pub fn c09_leaf(env: &mut Env, leaf: &Leaf) {
     }
 }
 
+/// C12, damage half, second part: ANY in-place fault of the menu (not only on the batch's own
+/// frames) on images that contain batches - e.g. damage that hides a delete + re-create, so
+/// that a batch of the new incarnation is replayed onto the old one.
+pub fn c12_anyfault_leaf(env: &mut Env, leaf: &Leaf) {
+    let Some(d) = build_image(env, leaf) else {
+        env.stats.diverged += 1;
+        return;
+    };
+    if d.batch_ops.is_empty() {
+        return;
+    }
+    env.stats.traces += 1;
+    let dir = env.scratch2.path.clone();
+    for (patch, descr, _) in inplace_faults(&d) {
+        let Some(img) = apply_patch(&d.image, &patch) else { continue };
+        env.stats.evaluations += 1;
+        env.stats.transitions += 1;
+        let (res, _) = open_image(&dir, &img, TICK_BUDGET);
+        let Opened::Ok(obs) = res else {
+            env.stats.outcome("open-not-ok(not C12's question)");
+            continue;
+        };
+        for op in &d.batch_ops {
+            let batch = &d.op_records[op];
+            let q = &batch[0].0;
+            let present: Vec<bool> = batch.iter().map(|(_, p, b)| obs.get(q).map(|rq| rq.recs.iter().any(|x| x.0 == *p && x.1 == *b)).unwrap_or(false)).collect();
+            let n = present.iter().filter(|x| **x).count();
+            env.stats.outcome(if n == 0 { "batch-absent" } else if n == batch.len() { "batch-whole" } else { "batch-partial" });
+            if n == 0 || n == batch.len() {
+                continue;
+            }
+            let first_present = present.iter().position(|x| *x).unwrap();
+            let is_suffix = present[first_present..].iter().all(|x| *x);
+            let last_dropped = batch[first_present.max(1) - 1].1;
+            let covered = first_present > 0 && d.truncs.iter().any(|(tq, tp)| tq == q && *tp >= last_dropped);
+            if !is_suffix || !covered {
+                env.stats.violation(Violation {
+                    property: "C12".into(),
+                    signature: "batch-torn-by-damage".into(),
+                    what: format!("damage {}: batch at positions {:?} of queue {} (written by op {}) recovered partially: present = {:?}", descr, batch.iter().map(|r| r.1).collect::<Vec<_>>(), q, op, present),
+                    case: case_json(leaf, descr.clone()),
+                });
+                return;
+            }
+        }
+    }
+}
+
 /// C12, damage half: frames of batch appends.
 pub fn c12_damage_leaf(env: &mut Env, leaf: &Leaf) {
     let Some(d) = build_image(env, leaf) else {
